@@ -199,6 +199,13 @@ func runC17Eval(c *Ctx) {
 							nE++
 						} else {
 							nW++
+							// the member names may be part of the clause text itself (names joined into it)
+							k := keyOf(e.Args[1])
+							for i := 0; i < size; i++ {
+								if strings.Contains(k, fmt.Sprintf("m%d.fieldName", i)) {
+									named[i] = true
+								}
+							}
 						}
 					} else if e.Kind == "write" {
 						k := keyOf(e.Args[1])
